@@ -512,6 +512,27 @@ func Run(c *engine.Ctx) {
 		states, transitions, exh = states+s, transitions+t, exh && e
 		c.Note("config %s depth %d: states=%d transitions=%d exhausted=%v", optsName(o), depthDefault, s, t, e)
 	}
+	// every encryption type on its own (so that the TGT session key, the authenticator checksum type and the
+	// pre-authentication key are of that type), keytab and password, short histories
+	for _, et := range []int32{16, 17, 18, 19, 20, 23} {
+		for _, cred := range []string{"keytab", "password"} {
+			o := cworld.DefaultOpts()
+			o.ETypes, o.Cred = []int32{et}, cred
+			if cred == "password" {
+				o.PreAuth = "required"
+			}
+			s, t, e := bfs(c, o, 2, maxStates)
+			states, transitions, exh = states+s, transitions+t, exh && e
+		}
+	}
+	// noaddresses = false with extra_addresses (IPv4 and IPv6): the local interface addresses are the environment's
+	// and are only required to be well-formed; the extra ones have to be on the wire as configured
+	{
+		o := cworld.DefaultOpts()
+		o.ExtraAddresses = []string{"10.1.2.3", "2001:db8::7"}
+		s, t, e := bfs(c, o, 2, maxStates)
+		states, transitions, exh = states+s, transitions+t, exh && e
+	}
 	cfgs := pairwise()
 	for _, o := range cfgs {
 		s, t, e := bfs(c, o, depthPair, maxStates)
@@ -526,7 +547,7 @@ func Run(c *engine.Ctx) {
 	c.Add("transitions", transitions)
 	c.Add("evaluations", transitions)
 	c.Add("traces_validated_against_impl", transitions)
-	c.Cov["rule"] = "explicit-state BFS over histories on alphabet {login, ticket(s1|s2|other-realm service), advance(+1s | next timer | earliest ticket end -1s/+1s | TGT end +1s | renew-till +1s | two ticket lifetimes elapsing with every timer firing at its own instant), destroy}: depth 4 (7 thorough) on six configurations (default; renewable short-lived with the KDC keeping / replacing the session key on renewal; three clients built from a credential cache holding a TGT and a service ticket of half its lifetime: not renewable, renewable, renewable with key replacement), depth 3 (4) on a pairwise-covering set of configurations over 10 settings; referral chains of length 0..12 and a 3-realm referral cycle, against the strict KDC and against KDCs tolerating the known authenticator-crealm finding; canonical state = sessions, cache entries and pending timers relative to the clock; distinct = canonical states"
+	c.Cov["rule"] = "explicit-state BFS over histories on alphabet {login, ticket(s1|s2|other-realm service), advance(+1s | next timer | earliest ticket end -1s/+1s | TGT end +1s | renew-till +1s | two ticket lifetimes elapsing with every timer firing at its own instant), destroy}: depth 4 (7 thorough) on six configurations (default; renewable short-lived with the KDC keeping / replacing the session key on renewal; three clients built from a credential cache holding a TGT and a service ticket of half its lifetime: not renewable, renewable, renewable with key replacement), depth 3 (4) on a pairwise-covering set of configurations over 10 settings; depth 2 for every etype alone x {keytab, password with pre-authentication}; referral chains of length 0..12 and a 3-realm referral cycle, against the strict KDC and against KDCs tolerating the known authenticator-crealm finding; canonical state = sessions, cache entries and pending timers relative to the clock; distinct = canonical states"
 }
 
 // referralChains: chains within the bound succeed with a ticket of the last realm, longer ones and cycles fail
